@@ -5,7 +5,6 @@ import shutil
 import struct
 import subprocess
 
-import srcprobe
 from vlib import Case
 
 BINARY_PROFILES = ["dev"]
@@ -14,7 +13,7 @@ RULE = ("e2e-file: the REAL p2sh binary (dev profile, working tree) runs generat
         "privileges dropped to nobody (EACCES, skipped when that is impossible), garbage / short / empty pcap headers, a record with caplen > snaplen; stdin redirected "
         "from a directory / garbage / nothing, stdout or stderr redirected to /dev/full. Every call prints is_error(result) and the script prints a sentinel at the end; "
         "oracle: every failing call prints true, the sentinel appears, exit status 0, no panic. Each call sequence is also run through the Lean model "
-        "(Model/IoFaults.lean: the call under the fault oracle the target produces). non-trivial = at least one call reported an error object")
+        "(Model/IoFaults.lean: the call under the fault oracle the target produces; every builtin reports a failure as an error object, so a regression shows up both as a model disagreement and as an oracle failure). non-trivial = at least one call reported an error object")
 ASSUMPTIONS = ["the targets produce the named errno on this kernel (checked by the run itself: the model predicts is_error = true only if the OS call fails)",
                "OS read failures in the middle of a pcap stream (EIO after a valid header) are covered by the model theorem only"]
 NOTES = ["calls that meet no failure on their target (a small write into the buffer of a /dev/full writer, open(dir) for reading, flush of an empty buffer) are unconstrained"]
@@ -73,7 +72,8 @@ SCN = {
     "pcap_stream_stdin_empty": ("stdin-empty", "rep(pcap_stream(stdin));"),
     "pcap_stream_stdout_nofault": ("stdout-full", "rep(pcap_stream(stdout));"),
 }
-# calls that stop the interpreter on the unchanged tree (kept out of most sequences so that the rest is exercised)
+# calls that stopped the interpreter before the repairs e9b7dd0 / 4ce3547 / 13af4ce: still drawn less often, so that a
+# regression in one of them cannot hide the calls after it in every sequence
 STOPPERS = {"flush_enospc", "write_stdout_nl_enospc", "flush_stdout_enospc", "write_stderr_enospc", "pcap_open_enoent", "pcap_open_x_eexist",
             "pcap_open_enotdir", "pcap_open_w_eisdir", "pcap_open_eacces"}
 
@@ -236,32 +236,15 @@ def classify(c):
     ids = [x for x in c.line.split(" ")[2].split(",") if x]
     want = c.spec[6:].split(";")
     got = c.impl.split(";")
-    same = c.impl == c.model
     for i, w in enumerate(want):
         g = got[i] if i < len(got) else None
         if w == "-" or w == g:
             continue
-        sid = ids[i] if i < len(ids) else "end"
-        if same and g == "PANIC" and sid in ("flush_enospc", "flush_stdout_enospc"):
-            return "flush-panics-on-failing-writer"
-        if same and g == "rterr" and sid.startswith("pcap_open_") and sid in STOPPERS:
-            return "pcap_open-open-failure-is-runtime-error"
-        if same and g == "PANIC" and sid in ("write_stdout_nl_enospc", "write_stderr_enospc"):
-            return "write-to-failing-stdout/stderr-panics"
-        return "iofault:" + sid
+        return "iofault:%s:%s" % (ids[i] if i < len(ids) else "end", g)
     return "iofault:length"
 
 
 def cases(ctx):
-    out = _cases(ctx)
-    fx = srcprobe.token(ctx.repo, ['flush', 'pcapopen', 'wstd', 'stdin'])       # which repairs the tree under check contains -> model variant
-    ctx.notes.append("model variant for this tree: " + fx)
-    for c in out:
-        c.line += " " + fx
-    return out
-
-
-def _cases(ctx):
     rng = ctx.rng
     out = []
 
